@@ -22,6 +22,12 @@ func runC05(c *Checker) {
 			c.undecided("C05.premise", "caller contract", line, "a fact the bounds proofs of the callee rely on no longer follows from its call sites")
 		}
 	}
+	for _, line := range B.applyPostconds() {
+		c.assuming(line)
+		if strings.Contains(line, "NOT established") {
+			c.undecided("C05.premise", "callee contract", line, "a postcondition the bounds proofs of the callers rely on is no longer provable from the callee's body")
+		}
+	}
 	res := B.checkAll()
 	fnsSeen := map[string]bool{}
 	for _, r := range res {
